@@ -15,9 +15,14 @@ import (
 	v1types "buf.build/gen/go/agglayer/interop/protocolbuffers/go/agglayer/interop/types/v1"
 	proverv1 "buf.build/gen/go/agglayer/provers/protocolbuffers/go/aggkit/prover/v1"
 	"github.com/agglayer/aggkit/aggoracle/chaingerreader"
+	"github.com/agglayer/aggkit/aggsender/optimistic"
+	"github.com/agglayer/aggkit/aggsender/optimistic/optimistichash"
 	aggsendertypes "github.com/agglayer/aggkit/aggsender/types"
 	"github.com/agglayer/aggkit/bridgesync"
+	"github.com/agglayer/aggkit/log"
+	"github.com/agglayer/go_signer/signer"
 	"github.com/ethereum/go-ethereum/common"
+	"github.com/ethereum/go-ethereum/crypto"
 	"google.golang.org/grpc"
 	"google.golang.org/grpc/codes"
 	"google.golang.org/grpc/status"
@@ -68,6 +73,11 @@ func (p *proverModel) answer(ctx context.Context, method string, in *proverv1.Ge
 	r := &proverResp{LastProven: in.LastProvenBlock, RequestedEnd: in.RequestedEndBlock, EndBlock: end, Params: keccakBytes(h[:], []byte("params")),
 		Proof: append(h.Bytes(), keccakBytes(h[:], []byte("p")).Bytes()...), Vkey: keccakBytes(h[:], []byte("v")).Bytes(), Version: fmt.Sprintf("v%d", p.n%3),
 		Custom: keccakBytes(h[:], []byte("c")).Bytes()[:int(1+h[0]%31)], Context: map[string][]byte{"k": h[:4], "n": {byte(p.n)}}, Optimistic: optimistic}
+	if h[1]%6 == 0 {
+		// a prover without a proving back end (mock prover): zero-length proof bytes
+		r.Proof = nil
+		p.s.rec.Stats.Inc("prover_empty_proof_bytes")
+	}
 	p.Resps = append(p.Resps, r)
 	p.s.rec.Stats.Inc("prover_proofs")
 	return r, nil
@@ -110,6 +120,7 @@ func (p *proverModel) GenerateOptimisticAggchainProof(ctx context.Context, in *p
 	if err != nil {
 		return nil, err
 	}
+	p.s.checkOptimisticSignature(in)
 	// the optimistic answer has no range of its own: the client reports the requested one
 	r.EndBlock = r.RequestedEnd
 	return &proverv1.GenerateOptimisticAggchainProofResponse{AggchainProof: r.proto(), LocalExitRootHash: p.ler(r.EndBlock), CustomChainData: r.Custom}, nil
@@ -258,10 +269,131 @@ type optModeStub struct{ s *senderWorld }
 
 func (o optModeStub) IsOptimisticModeOn() (bool, error) { return o.s.optOn, nil }
 
-type optSignerStub struct{}
+// ---------------------------------------------------------------- optimistic signature: real calculator, stubbed inputs
 
-func (optSignerStub) Sign(ctx context.Context, req aggsendertypes.AggchainProofRequest, newLER common.Hash, claims []bridgesync.Claim) ([]byte, string, error) {
-	sig := make([]byte, 65)
-	copy(sig, newLER[:])
-	return sig, "optimistic-extra", nil
+const optimisticPrivKey = "0x7c852118294e51e653712a81e05800f419141751be58f605c371e15141b007a6"
+
+var optimisticAddr = func() common.Address {
+	k, err := crypto.HexToECDSA(optimisticPrivKey[2:])
+	if err != nil {
+		panic(err)
+	}
+	return crypto.PubkeyToAddress(k.PublicKey)
+}()
+
+// optValuesStub answers what the real calculator reads from the FEP contract and the op-node: a fixed function of
+// the request, so that the oracle at the prover can recompute the commitment on its own.
+type optValuesStub struct{}
+
+func optPublicValues(lastProven, requestedEnd uint64, l1Head common.Hash) *optimistichash.AggregationProofPublicValues {
+	return &optimistichash.AggregationProofPublicValues{
+		L1Head:           l1Head,
+		L2PreRoot:        crypto.Keccak256Hash([]byte("pre"), u64le(lastProven)),
+		ClaimRoot:        crypto.Keccak256Hash([]byte("claim"), u64le(requestedEnd)),
+		L2BlockNumber:    requestedEnd,
+		RollupConfigHash: common.HexToHash("0xc0f1"),
+		MultiBlockVKey:   common.HexToHash("0xbeef"),
+		ProverAddress:    optimisticAddr,
+	}
+}
+
+func (optValuesStub) GetAggregationProofPublicValuesData(lastProvenBlock, requestedEndBlock uint64, l1InfoTreeLeafHash common.Hash) (*optimistichash.AggregationProofPublicValues, error) {
+	return optPublicValues(lastProvenBlock, requestedEndBlock, l1InfoTreeLeafHash), nil
+}
+
+// refExitHashRawMetadata: the exit hash with the metadata bytes themselves in the last position (the hash of nothing
+// when there are none) instead of their hash.
+func refExitHashRawMetadata(leafType uint8, origNet uint32, origAddr common.Address, destNet uint32, destAddr common.Address, amount *big.Int, metadata []byte) common.Hash {
+	var on, dn [4]byte
+	binary.BigEndian.PutUint32(on[:], origNet)
+	binary.BigEndian.PutUint32(dn[:], destNet)
+	var am [32]byte
+	if amount != nil {
+		ab := amount.Bytes()
+		copy(am[32-len(ab):], ab)
+	}
+	md := metadata
+	if len(md) == 0 {
+		md = crypto.Keccak256(nil)
+	}
+	return keccakBytes([]byte{leafType}, on[:], origAddr[:], dn[:], destAddr[:], am[:], md)
+}
+
+// newOptimisticSigner: the REAL optimistic.OptimisticSignatureCalculatorImpl (commitment over the claims, signature)
+// with a local key.
+func newOptimisticSigner(ctx context.Context, logger *log.Logger) (aggsendertypes.OptimisticSigner, error) {
+	sg, err := signer.NewSigner(ctx, 0, signer.NewMockSignerConfig(optimisticPrivKey), "optimistic", logger)
+	if err != nil {
+		return nil, err
+	}
+	if err := sg.Initialize(ctx); err != nil {
+		return nil, err
+	}
+	return optimistic.NewVerifOptimisticSignatureCalculator(logger, optValuesStub{}, sg), nil
+}
+
+// checkOptimisticSignature (at the prover): the signature that accompanies an optimistic request is the trusted
+// sequencer's over keccak(public values hash, new local exit root, commitment to the imported exits), the last one
+// recomputed here from the chain's claim events: little-endian global index and exit hash per claim.
+func (s *senderWorld) checkOptimisticSignature(in *proverv1.GenerateOptimisticAggchainProofRequest) {
+	rq := in.AggchainProofRequest
+	from, to := rq.LastProvenBlock+1, rq.RequestedEndBlock
+	if to < from || rq.L1InfoTreeLeaf == nil || rq.L1InfoTreeLeaf.Inner == nil {
+		return
+	}
+	_, cs := s.eventsIn(from, to)
+	// Two forms of a claim's exit hash are accepted (all claims of a request in the same form): the bridge contract's
+	// leaf value, which is what the same request carries as the imported exit's hash (judged by c03/prover-imported-
+	// exit), and the value over the claim's metadata bytes themselves, which is what this tree's calculator signs for
+	// claims with metadata. Which of the two the aggchain prover expects is outside the listed properties (DESIGN.md
+	// 14.4, observations); signer, public values, new exit root and every global index are judged.
+	var bufLeaf, bufRaw []byte
+	for _, cl := range cs {
+		if canonGI(cl.GlobalIndex).Cmp(cl.GlobalIndex) != 0 {
+			// not a canonical on-chain value (outside C19's quantifier): which of its forms is committed to is not judged
+			s.rec.Stats.Inc("optimistic_signature_not_judged_non_canonical_index")
+			return
+		}
+		lt := uint8(0)
+		if cl.IsMessage {
+			lt = 1
+		}
+		bufLeaf = append(bufLeaf, leBytes(cl.GlobalIndex)...)
+		bufLeaf = append(bufLeaf, refBridgeLeaf(lt, cl.OriginNetwork, cl.OriginAddress, cl.DestinationNetwork, cl.DestinationAddress, cl.Amount, cl.Metadata).Bytes()...)
+		bufRaw = append(bufRaw, leBytes(cl.GlobalIndex)...)
+		bufRaw = append(bufRaw, refExitHashRawMetadata(lt, cl.OriginNetwork, cl.OriginAddress, cl.DestinationNetwork, cl.DestinationAddress, cl.Amount, cl.Metadata).Bytes()...)
+	}
+	pvHash, err := optPublicValues(rq.LastProvenBlock, rq.RequestedEndBlock, fb32(rq.L1InfoTreeLeaf.Inner.BlockHash)).Hash()
+	if err != nil {
+		s.viol = &Violation{Oracle: "harness", Detail: "public values hash: " + err.Error()}
+		return
+	}
+	newLER := fb32(s.pv.ler(to))
+	sig := append([]byte(nil), in.GetOptimisticModeSignature().GetValue()...)
+	if len(sig) != 65 {
+		s.fail("signature", "c10/signature-optimistic", "the optimistic request for blocks %d..%d carries a %d-byte signature", from, to, len(sig))
+		return
+	}
+	if sig[64] >= 27 {
+		sig[64] -= 27
+	}
+	form := ""
+	for _, v := range []struct {
+		name string
+		buf  []byte
+	}{{"leaf", bufLeaf}, {"raw", bufRaw}} {
+		want := crypto.Keccak256Hash(pvHash[:], newLER.Bytes(), crypto.Keccak256(v.buf))
+		if pub, err := crypto.SigToPub(want.Bytes(), sig); err == nil && crypto.PubkeyToAddress(*pub) == optimisticAddr {
+			form = v.name
+			break
+		}
+	}
+	if form == "" {
+		s.fail("signature", "c10/signature-optimistic", "the signature of the optimistic request for blocks %d..%d (%d claims) is not the trusted sequencer's over the commitment recomputed from the chain's claims (global indexes, new exit root %s, public values hash %s)", from, to, len(cs), newLER.Hex()[:12], common.Hash(pvHash).Hex()[:12])
+		return
+	}
+	if form == "raw" && string(bufRaw) != string(bufLeaf) {
+		s.rec.Stats.Inc("optimistic_signature_over_raw_metadata_exit_hash")
+	}
+	s.rec.Stats.Inc("optimistic_signatures_verified")
 }
